@@ -362,7 +362,7 @@ class _Tok:
         return self
 
 
-def probe(repo, consts, measurements, offered=None, table=None):
+def probe(repo, consts, measurements, offered=None, table=None, no_reply=()):
     """Interpret HostKeyTest.perform_test along its no-exception path for the host-key types in `measurements` = [(type, cert, size, ca type, ca size)]
     (in that order; every one offered by the server unless `offered` says otherwise).
     -> {'table': {type: rows}, 'records': [(type, size, ca type, ca size)], 'connects': n, 'closes': n, 'kexinits': [...]}"""
@@ -418,15 +418,20 @@ def probe(repo, consts, measurements, offered=None, table=None):
             return (True, None)
         if t == 'kex_group.recv_reply':
             events['reply_args'].append((state['type'], [interp.value(a, e) for a in call.args[1:]], {k.arg: interp.value(k.value, e) for k in call.keywords if k.arg}))
+            if state['type'] in no_reply:
+                return (True, None)      # the peer hung up instead of answering this probe: recv_reply() returns None (it does not raise)
             return (True, b'<blob of %s>' % (state['type'] or '?').encode())
         if t in ('kex_group.get_hostkey_size', 'kex_group.get_ca_type', 'kex_group.get_ca_size'):
             m = by_type.get(state['type'])
             if m is None:
                 raise Unknown('measurement requested without a probe for one host-key type')
+            if state['type'] in no_reply:
+                return (True, {'kex_group.get_hostkey_size': 0, 'kex_group.get_ca_type': '', 'kex_group.get_ca_size': 0}[t])
             return (True, {'kex_group.get_hostkey_size': m[2], 'kex_group.get_ca_type': m[3], 'kex_group.get_ca_size': m[4]}[t])
         if t == 'server_kex.set_host_key':
             vals = [interp.value(a, e) for a in call.args]
             events['records'].append(tuple(vals[:1] + vals[2:5]))
+            events.setdefault('record_blobs', []).append((vals[0], vals[1] if len(vals) > 1 else None))
             return (True, None)
         if t == 'SSH2_KexDB.get_db':
             return (True, tbl)
